@@ -81,10 +81,11 @@ def echo_worker(analysis: Analysis, spec) -> dict:
         if kind != "val" or (isinstance(v, Const) and v.value is None):
             continue
         packs = [e for e in s.events if e.kind == "enter" and e.name == "ota:fw_int_to_hex"]
+        parses = [(e.args[0].key() == s.mem[(msg.key(), "a", "payload")].key(), e.args[1].value if isinstance(e.args[1], Const) else None) for e in s.events if e.kind == "enter" and e.name == "ota:fw_hex_to_int" and len(e.args) >= 2]
         unp = [e for e in s.events if e.kind == "exit" and e.name == "ota:fw_hex_to_int"]
         req_words = []
-        if unp and unp[-1].args and hasattr(unp[-1].args[0], "items"):
-            req_words = [w.key() for w in unp[-1].args[0].items]
+        if unp and unp[-1].retval is not None and hasattr(unp[-1].retval, "items"):
+            req_words = [w.key() for w in unp[-1].retval.items]
         args = []
         if packs:
             a = packs[-1].args
@@ -96,7 +97,13 @@ def echo_worker(analysis: Analysis, spec) -> dict:
             argkeys = []
         # how the final payload is assembled (stores to payload of the reply)
         pay_stores = [e for e in s.events if e.kind == "store" and e.name == "payload" and isinstance(e.recv, Obj) and e.recv.key() == v.key() and e.func == qual]
-        rows.append({"args": args, "req_words": [repr(k) for k in req_words], "echo": [argkeys[i] == req_words[i] if i < len(argkeys) and i < len(req_words) else None for i in range(3)], "npack": len(packs), "pay_stores": len(pay_stores), "last_payload": (getattr(pay_stores[-1].args[0], "label", None) or repr(pay_stores[-1].args[0].key())) if pay_stores else None, "witness": describe_path(out, 20)})
+        blk = None
+        for e in s.events:
+            if e.kind == "call" and e.name == "binascii.hexlify" and e.args and getattr(e.args[0], "slice_bounds", None) is not None:
+                a0 = e.args[0]
+                lo, hi = a0.slice_bounds.get("lower"), a0.slice_bounds.get("upper")
+                blk = {"base": getattr(a0.slice_of, "label", repr(a0.slice_of.key())), "lo": getattr(lo, "label", None) if lo is not None else None, "hi": getattr(hi, "label", None) if hi is not None else None, "lo_key": repr(lo.key()) if lo is not None else None, "step": "step" in a0.slice_bounds}
+        rows.append({"args": args, "req_words": [repr(k) for k in req_words], "echo": [argkeys[i] == req_words[i] if i < len(argkeys) and i < len(req_words) else None for i in range(3)], "npack": len(packs), "pay_stores": len(pay_stores), "parses": parses, "last_payload": (getattr(pay_stores[-1].args[0], "label", None) or repr(pay_stores[-1].args[0].key())) if pay_stores else None, "blk": blk, "witness": describe_path(out, 20)})
     return {"qual": qual, "rows": rows}
 
 
@@ -105,33 +112,6 @@ def block_size(analysis: Analysis, res: RuleResult) -> None:
     const = mod.assigns.get("FIRMWARE_BLOCK_SIZE")
     okc = isinstance(const, ast.Constant) and const.value == 16
     res.add("C09-R2", "ota:FIRMWARE_BLOCK_SIZE is 16", okc, "mysensors/ota.py", f"{unparse(const) if const is not None else None}")
-    info = analysis.p.func("ota:OTAFirmware.respond_fw")
-    found = False
-    blk_name = rec_name = None
-    for n in ast.walk(info.node):
-        if isinstance(n, ast.Assign) and isinstance(n.value, ast.Call) and isinstance(n.targets[0], (ast.Tuple, ast.List)):
-            fn = unparse(n.value.func)
-            names = [unparse(e) for e in n.targets[0].elts]
-            if fn == "fw_hex_to_int" and len(names) == 3:
-                blk_name = names[2]
-            if fn.endswith("._get_fw") and len(names) == 3:
-                rec_name = names[2]
-    for n in ast.walk(info.node):
-        if isinstance(n, ast.Subscript) and isinstance(n.slice, ast.Slice) and n.slice.lower is not None and n.slice.upper is not None:
-            lo, hi = n.slice.lower, n.slice.upper
-            if isinstance(lo, ast.BinOp) and isinstance(lo.op, ast.Mult):
-                found = True
-                i, s = unparse(lo.left), unparse(lo.right)
-                if s != "FIRMWARE_BLOCK_SIZE":
-                    i, s = s, i
-                ok = s == "FIRMWARE_BLOCK_SIZE" and unparse(hi).replace(" ", "") in (f"{unparse(lo)}+{s}".replace(" ", ""), f"({i}+1)*{s}".replace(" ", "")) and n.slice.step is None
-                res.add("C09-R2", "ota:OTAFirmware.respond_fw / block slice is [i*S : i*S + S] with S the block size", ok, common.where(analysis, info, n), unparse(n.slice))
-                idx_ok = blk_name is not None and i == blk_name
-                res.add("C09-R1", "ota:OTAFirmware.respond_fw / the slice index is the requested block index", idx_ok, common.where(analysis, info, n), f"index {i}")
-                src_ok = rec_name is not None and unparse(n.value).replace('"', "'") == f"{rec_name}['data']"
-                res.add("C09-R3", "ota:OTAFirmware.respond_fw / blocks are cut from the record's data", src_ok, common.where(analysis, info, n), unparse(n.value))
-    if not found:
-        raise AnalysisError("C09-R2: block slice in respond_fw not recognised")
     prep = analysis.p.func("ota:prepare_fw")
     div = None
     for n in ast.walk(prep.node):
@@ -250,18 +230,32 @@ def run(analysis: Analysis, tier: str) -> RuleResult:
         "CRC value, Intel-HEX decoding and reassembly equality are not decided.",
     ]
     fmt_rule(analysis, res)
-    word_counts(analysis, res)
     last = analysis.versions[-1]
     for summ in common.pmap(analysis, echo_worker, [(q, (last, "serial", "sync")) for q in ("ota:OTAFirmware.respond_fw", "ota:OTAFirmware.respond_fw_config")]):
         q = summ["qual"]
         if not summ["rows"]:
             raise AnalysisError(f"C09-R1: no replying path of {q}")
+        words = 3 if q.endswith("respond_fw") else 5
+        for r in summ["rows"]:
+            okw = len(r["parses"]) == 1 and r["parses"][0] == (True, words) and len(r["req_words"]) == words
+            res.add("C09-R1", f"{q} / request payload is unpacked into {words} words", okw, "mysensors/ota.py", f"fw_hex_to_int(msg.payload, {words}) -> {len(r['req_words'])} words" if okw else f"parse calls {r['parses']}, words {len(r['req_words'])}", r["witness"] if not okw else None)
         for r in summ["rows"]:
             if q.endswith("respond_fw"):
                 ok = r["npack"] == 1 and len(r["args"]) == 3 and all(r["echo"])
                 res.add("C09-R1", f"{q} / block response echoes the request's type, version and block index", ok, "mysensors/ota.py", f"packed words {r['args']}, request words {r['req_words'][:3]}", r["witness"] if not ok else None)
                 okp = r["pay_stores"] >= 1 and r["last_payload"] is not None and "hexlify" in r["last_payload"] and "binop:Add" in r["last_payload"]
                 res.add("C09-R1", f"{q} / payload is the 3-word header followed by the block data", okp, "mysensors/ota.py", f"payload {r['last_payload'][:120] if r['last_payload'] else None}", r["witness"] if not okp else None)
+                b = r["blk"]
+                S = "('c', 'int', 16)"
+                idx = r["req_words"][2] if len(r["req_words"]) > 2 else "?"
+                ok_b = False
+                if b and b["lo"] and b["hi"] and not b["step"]:
+                    lo_ok = b["lo"].startswith("binop:Mult:") and idx in b["lo"] and S in b["lo"]
+                    hi_ok = (b["hi"].startswith("binop:Add:") and b["lo_key"] in b["hi"] and b["hi"].endswith(S)) or (b["hi"].startswith("binop:Mult:") and "binop:Add:" in b["hi"] and idx in b["hi"] and "('c', 'int', 1)" in b["hi"] and b["hi"].endswith(S))
+                    ok_b = lo_ok and hi_ok
+                res.add("C09-R2", f"{q} / the block data is data[i*16 : i*16 + 16] for the requested index i", ok_b, "mysensors/ota.py", f"slice bounds lo={b['lo'] if b else None} hi={b['hi'] if b else None}"[:260], r["witness"] if not ok_b else None)
+                ok_src = bool(b) and "'data'" in (b["base"] or "") and "firmware" in (b["base"] or "")
+                res.add("C09-R3", f"{q} / blocks are cut from the stored record's data", ok_src, "mysensors/ota.py", f"sliced value {b['base'][:120] if b else None}", r["witness"] if not ok_src else None)
             else:
                 a = r["args"]
                 ok = r["npack"] == 1 and len(a) == 4 and "'blocks'" in a[2] and "'crc'" in a[3] and "unpack0" in a[0] and "unpack1" in a[1] and "get" in a[0]
